@@ -1371,6 +1371,10 @@ fn run(args: Args) -> Report {
 }
 
 fn main() {
+    // long function bodies (gen.rs) are generated for C05 only
+    if std::env::args().any(|a| a == "C05") {
+        std::env::set_var("VH_LONG_BODIES", "1");
+    }
     panicmon::install();
     let args = Args::parse();
     let a2 = args.clone();
